@@ -51,6 +51,12 @@ def run(rep: common.Report, tier: str, seed: int):
         ln, f, rate = num_case(rng)
         per_call = rng.random() < 0.5
         lp = LaserPath(speed=(1.0 if per_call else f), cmd_rate_max=rate)
+        if rng.random() < 0.3:
+            # speed and cmd_rate_max are public attributes: set after a first count with other values
+            lp = LaserPath(speed=rng.choice([2.0, 50.0]), cmd_rate_max=rng.choice([77, 2400]))
+            with pgm.quiet():
+                _ = (lp.num_subdivisions(1.0), lp.dl)
+            lp.speed, lp.cmd_rate_max = (1.0 if per_call else f), rate
         with pgm.quiet():
             try:
                 n = lp.num_subdivisions(ln, f if per_call else None)
@@ -69,8 +75,16 @@ def run(rep: common.Report, tier: str, seed: int):
         f = per_call if per_call is not None else speed
         radius = rng.choice([5.0, 15.0, 25.0, 40.0])
         wg = Waveguide(speed=speed, cmd_rate_max=rate, radius=radius)
+        reset = rng.random() < 0.3
+        if reset:
+            wg = Waveguide(speed=rng.choice([2.0, 50.0]), cmd_rate_max=rng.choice([77, 2400]), radius=rng.choice([10.0, 60.0]))
         with pgm.quiet():
             wg.start([rng.choice([-2.0, 0.0, 1.5]), rng.choice([0.0, 0.25]), 0.035])
+            if reset:
+                # a first curved segment with other defaults, then the (public) defaults are re-assigned
+                wg.arc_bend(0.03)
+                _ = wg.dl
+                wg.speed, wg.cmd_rate_max, wg.radius = speed, rate, radius
             n0 = wg._x.size
             k = rng.random()
             dy = rng.choice([0.03, -0.03, 0.0365, 0.2, -0.5, 1e-5])
